@@ -158,6 +158,18 @@ impl Ctx {
         per.max(1)
     }
 
+    /// Miri safety net: true once this shard has announced as many cases as a Miri shard may run.
+    pub fn miri_full(&self) -> bool {
+        if self.config != "miri" || self.is_replay {
+            return false;
+        }
+        let cap = match self.tier {
+            Tier::Quick => 24,
+            Tier::Thorough => 60,
+        };
+        self.cases >= cap
+    }
+
     /// Is this deterministic item (by running index) assigned to this shard?
     pub fn mine(&self, idx: u64) -> bool {
         (idx % self.nshards as u64) as usize == self.shard
